@@ -92,7 +92,7 @@ type explorer struct {
 	mu       sync.Mutex
 	confirm  map[string]bool // signature -> already confirmed 5x
 	memo     map[string]*memoEntry
-	harness  []*harness      // per worker
+	harness  []*harness // per worker
 	sampleMu sync.Mutex
 }
 
@@ -545,6 +545,14 @@ func abstractDiff(impl, model string) string {
 			if sec == "" {
 				sec = y
 			}
+			if strings.HasPrefix(x, "!") {
+				// the battery flagged that one reflection route disagrees with Reflect.ownKeys / getOwnPropertyDescriptor
+				r := x
+				if i := strings.IndexAny(r, "[:"); i > 0 {
+					r = r[:i]
+				}
+				return name + " route " + r
+			}
 			if okx != oky || (okx && kx != ky) {
 				return name + ".own-keys/properties differ"
 			}
@@ -827,7 +835,11 @@ func (z *minimizer) try(nsc *scenario, npath []Op, nop Op) bool {
 		r2.D = nop.D
 		nref = &r2
 	}
-	if g := stillFailsRef(z.hp, nsc, npath, nop, nref, z.f.mismatch); g != nil {
+	g := stillFailsRef(z.hp, nsc, npath, nop, nref, z.f.mismatch)
+	if debugExplore {
+		fmt.Printf("DEBUG minimize try %s/%s [%s] %s -> %v\n", nsc.Kind, nsc.Variant, pathString(npath), nop, g != nil)
+	}
+	if g != nil {
 		z.sc, z.path, z.op, z.ref, z.f = nsc, npath, nop, nref, g
 		return true
 	}
